@@ -266,6 +266,17 @@ def generate():
                 continue
             for pos in positions(n):
                 yield ("misplaced-parameter", {"incorrectFormat", "badValue"}, mk(with_attr(plain_fields(shape, n), pos, fa)))
+    # a type-level default expression: no Default attribute may appear on a variant or field
+    for fa in ["#[educe(Default)]", "#[educe(Default = 7)]", "#[educe(Default(expression = 7))]"]:
+        for pos in (0, 1):
+            yield ("default-attribute-under-type-expression", {"incorrectPlace", "incorrectFormat", "badValue"},
+                   item("struct", "S", ["#[educe(Default(expression = S { f0: 1, f1: 2 }))]"], [("", "named", [], with_attr(plain_fields("named", 2), pos, fa))]))
+            yield ("default-attribute-under-type-expression", {"incorrectPlace", "incorrectFormat", "badValue"},
+                   item("union", "U", ["#[educe(Default(expression = U { f0: 1 }))]"], [("", "named", [], with_attr(plain_fields("named", 2, "u32"), pos, fa))]))
+            yield ("default-attribute-under-type-expression", {"incorrectPlace", "incorrectFormat", "badValue"},
+                   item("enum", "E", ["#[educe(Default(expression = E::A(1, 2)))]"], [("A", "tuple", [], with_attr(plain_fields("tuple", 2), pos, fa)), ("B", "unit", [], [])]))
+    yield ("default-attribute-under-type-expression", {"incorrectPlace", "incorrectFormat", "badValue"},
+           item("enum", "E", ["#[educe(Default(expression = E::B))]"], [("A", "tuple", ["#[educe(Default)]"], plain_fields("tuple", 1)), ("B", "unit", [], [])]))
     # the sole field of a variant / struct is designated without a marker, but its attributes are still validated
     for tattrs, a, classes in [(["#[educe(Deref)]"], "Deref(x)", {"incorrectFormat", "badValue"}), (["#[educe(Deref)]"], "Deref = true", {"incorrectFormat", "badValue"}),
                                (["#[educe(Deref)]"], "Deref, Deref", {"reuseTrait"}),
